@@ -575,3 +575,33 @@ Example C01_static_merge_right_all_sat_partial_example :
   (exists s', merge_right (static_init mx_vs mx_cs) 0 = Ok s') /\
   slack_val (base (static_init mx_vs mx_cs)) 0 < 0.
 Proof. exact merge_right_all_sat_example. Qed.
+
+(* ---- (d-static4) the out-heap order of Block::findMinOutConstraint (Vpsc/StaticOutHeap.v): `mr_roots_ok` DISCHARGED.
+   mergeRight rebuilds the out-heap of every block it touches, so every element is stamped with the current counter and
+   its CompareConstraints key is -DBL_MAX exactly when it is internal; internal elements are skipped, all other keys of
+   one heap shift by the same amount in a merge.  Hence the root delivered at every tested state is a most violated
+   out-constraint, and Blocks::mergeRight returns with every slack >= 0 from any state satisfying the loop invariant I2
+   (MRI) and the time-stamp / vector-length well-formedness of the solver state - no hypothesis about heap roots. *)
+From Adapt Require Import Vpsc.StaticOutHeap Vpsc.StaticOutHeapEx.
+
+Theorem C01_static_out_heap_root_most_violated s l c :
+  MRH s l c -> out_root_ok s l c.
+Proof. exact (MRH_root s l c). Qed.
+Print Assumptions C01_static_out_heap_root_most_violated.
+
+Theorem C01_static_merge_right_all_sat s l s' :
+  MRI (base s) l -> inhabited (base s) l -> T2 s -> length (ctime s) = length (scons (base s)) ->
+  (length (blocks (base s)) <= length (bout s))%nat ->
+  merge_right s l = Ok s' ->
+  all_sat0 (base s') /\ book (base s') /\ act_inv (base s') /\ all_blk_ok (base s') /\
+  scons (base s') = scons (base s) /\ svars (base s') = svars (base s).
+Proof. exact (merge_right_all_sat_closed s l s'). Qed.
+Print Assumptions C01_static_merge_right_all_sat.
+
+(* non-vacuity: a violated out-constraint, one merge; every hypothesis holds and mergeRight returns *)
+Example C01_static_merge_right_all_sat_example :
+  let s := static_init mx_vs mx_cs in
+  MRI (base s) 0 /\ inhabited (base s) 0 /\ T2 s /\ length (ctime s) = length (scons (base s)) /\
+  (length (blocks (base s)) <= length (bout s))%nat /\
+  (exists s', merge_right s 0 = Ok s') /\ slack_val (base s) 0 < 0.
+Proof. exact merge_right_all_sat_closed_example. Qed.
